@@ -212,7 +212,7 @@ def rule_L5(ctx) -> None:
 
 def run(ctx) -> None:
     ctx.oracle("declared correspondence phi: write(e)->size+=L(e); encode_varint->size_varint; _serialize_single->_len_single; _preprocess_single->_len_preprocessed_single")
-    for name, fn in (("L1", rule_L1), ("L2", rule_L2), ("L3", rule_L3), ("L4", varint.rule_L4), ("L5", rule_L5)):
+    for name, fn in (("L1", rule_L1), ("L2", rule_L2), ("L3", rule_L3), ("L4", varint.rule_L4), ("L4b", lambda c: varint.rule_N1b(c, "L4")), ("L5", rule_L5)):
         ctx.rules_run.append(name)
         fn(ctx)
     ctx.floor("L1", "type instances", len([o for o in ctx.obs if o.rule == "L1"]), 1)
